@@ -48,17 +48,50 @@ def rule_dr1(ctx, min_methods=13):
                                 for s in g.body):
                     guards.append(g)
             rets = [x for x in ast.walk(pre.node) if isinstance(x, ast.Return)]
+            if not guards:
+                # the test may live in a helper that receives the object
+                for cl in ast.walk(pre.node):
+                    if not (isinstance(cl, ast.Call) and any(
+                            dotted(a) == obj for a in cl.args)):
+                        continue
+                    g_f = None
+                    try:
+                        if isinstance(cl.func, ast.Name):
+                            g_f = ctx.p.get_function(DRAW, cl.func.id)
+                        elif isinstance(cl.func, ast.Attribute) \
+                                and dotted(cl.func.value) == "self":
+                            g_f = ctx.p.find_method(c, cl.func.attr)
+                    except AnalysisError:
+                        g_f = None
+                    if g_f is None:
+                        continue
+                    off = 1 if g_f.cls is not None else 0
+                    idx = [i for i, a in enumerate(cl.args)
+                           if dotted(a) == obj]
+                    pn = g_f.params[idx[0] + off] \
+                        if idx[0] + off < len(g_f.params) else None
+                    for g in ast.walk(g_f.node):
+                        if isinstance(g, ast.If) and pn is not None \
+                                and f"{pn}.dimension" in dotted(g.test) \
+                                and any(isinstance(s2, ast.Raise)
+                                        and s2.exc is not None
+                                        and "GeometryError" in dotted(s2.exc)
+                                        for s2 in g.body):
+                            r.analysed(g_f)
+                            # position of the call stands for the guard
+                            guards.append(cl)
             ok = bool(guards) and rets and all(
                 _pos(g) < _pos(rt) for g in guards[:1] for rt in rets)
             inst = f"{cname}.preprocess_object:guard"
             if ok:
                 # the expected dimension is a literal compared with !=
-                t = guards[0].test
+                t = getattr(guards[0], "test", None)
                 lit = None
                 if isinstance(t, ast.Compare) and len(t.ops) == 1 \
                         and isinstance(t.ops[0], ast.NotEq):
                     lit = const_value(t.comparators[0])
-                r.ok("DR1", inst, loc(pre, guards[0]), dotted(guards[0].test),
+                r.ok("DR1", inst, loc(pre, guards[0]),
+                     dotted(getattr(guards[0], "test", guards[0]))[:100],
                      f"rejects objects whose dimension is not {lit}")
             else:
                 r.violation(
